@@ -18,6 +18,7 @@ import struct
 import sys
 from collections import OrderedDict
 from pathlib import PurePosixPath
+import pathlib
 
 
 def sha(b):
@@ -204,6 +205,8 @@ def main():
         "", "|", "a", "b", "ab", "__DDS_NONE__", "\x00\x00\x00\x01", "é", "0" * 64,
         datetime.date(2020, 1, 2), datetime.datetime(2020, 1, 2, 3, 4), datetime.timedelta(1), datetime.time(1, 2),
         PurePosixPath("a/b"), PurePosixPath("/"), CanonicalPath(PurePosixPath("m/f")),
+        # concrete paths (relative ones must not be resolved against the working directory), line-ending variants
+        pathlib.Path("rel/x"), pathlib.Path("/abs/x"), pathlib.Path("."), "a\r\nb", "a\nb", "a\rb", "\r\n", "\n", " a", "a ", "A",
     ]
     small = [None, True, 0, 1, 2**31, 0.0, "", "a", "|", datetime.date(2020, 1, 2), PurePosixPath("a/b")]
     vals = list(atoms)
